@@ -18,7 +18,7 @@ RULE = ("cases: random recipes with variables fixed by leaf bounds (k,k), by pre
         "prior assume() of constants on leaves and sub-proposition ids; then reduce(). non-trivial: >=1 variable fixed, >=1 free, "
         "and the result differs from the input (threshold or children changed); distinct by canonical shape digest"
         ' Also: the same model with two different leaves fixed at the mid-point of equal bounds, hostile twins.')
-BUDGET = {"quick": (12, 180, 90), "thorough": (16, 900, 1200)}
+BUDGET = {"quick": (12, 360, 90), "thorough": (16, 900, 1200)}
 PYTEST = True     # thorough tier also runs the repository's own tests under these monitors
 MANDATORY = ["judged:same-meaning", "judged:no-constant-left", "contract:AtLeast.reduce", "count:result-is-constant",
              "count:result-is-compound", "count:after-assume", "count:swap-fixed-pairs", "count:twin-runs", "count:deep-models", "count:reduce-after-rebinding"]
